@@ -116,8 +116,15 @@ def r_deleg(f):
                 if not ok:
                     R.fail(b.ident, "arg:%s" % show(a1), "%s calls %s with index %s, expected self.%s" % (b.ident, want, show(a1), dimname), cb.where(t["span"]))
             else:
-                ok = a1[0] == "bin" and a1[1].startswith("Sub") and const_usize(a1[3]) == 1 and \
-                    (is_self_field(a1[2], idx, selfs) or (strip(a1[2])[0] == "call" and strip(a1[2])[2] == dimname))
+                def dim_expr(x):
+                    x = strip(x)
+                    return is_self_field(x, idx, selfs) or (x[0] == "call" and x[2] == dimname)
+                ok = a1[0] == "bin" and a1[1].startswith("Sub") and const_usize(a1[3]) == 1 and dim_expr(a1[2])
+                via_checked = False
+                if not ok and a1[0] == "field" and a1[2] == 0 and strip(a1[1])[0] == "downcast" and strip(a1[1])[2] == "Some":
+                    inner = strip(strip(a1[1])[1])
+                    if inner[0] == "call" and inner[2] == "checked_sub" and dim_expr(inner[3][0]) and const_usize(inner[3][1]) == 1:
+                        ok = via_checked = True      # Some(i) = dim.checked_sub(1): the None arm is the emptiness guard
                 R.inst(b.ident, "%s(self.%s - 1): index argument is %s" % (want, dimname, show(a1)), ok)
                 if not ok:
                     R.fail(b.ident, "arg:%s" % show(a1), "%s calls %s with index %s, expected self.%s - 1" % (b.ident, want, show(a1), dimname), cb.where(t["span"]))
@@ -145,6 +152,8 @@ def r_deleg(f):
                                 guards.append(show(c))
                             elif zero and other:
                                 guards.append("WRONG:" + show(c))
+                if via_checked:
+                    guards.append("checked_sub(self.%s, 1) is Some" % dimname)
                 good = [g for g in guards if not g.startswith("WRONG:")]
                 R.inst(b.ident, "guarded by a comparison of self.%s with 0: %s" % (dimname, guards), bool(good))
                 if not good:
@@ -303,6 +312,19 @@ def r_ovf(f):
                         used_checked.append((fn["name"], t))
             for nm, t in used_checked:
                 dest = t["dest"]["local"]
+                if nm.startswith("checked_"):
+                    # an Option: consumed unless it is force-unwrapped (which would panic for a huge n instead of yielding None)
+                    forced = False
+                    for bi3, t3, fn3 in b.calls():
+                        if fn3 and fn3["name"] in ("unwrap", "expect", "unwrap_unchecked") and fn3["path"].startswith("core::option::Option"):
+                            e3 = strip(d.expr(t3["args"][0]))
+                            if e3[0] == "call" and e3[2] == nm:
+                                forced = True
+                    if not forced:
+                        flag_used = True
+                    else:
+                        flag_used = False
+                        break
                 # the failure indication: field 1 of the tuple (overflowing_*), or the Option discriminant (checked_*)
                 for bi2, bl in enumerate(b.blocks):
                     tt = bl["term"]
